@@ -818,9 +818,13 @@ func hyErrFlow(g *hyGen, p *packages.Package) string {
 					ifs, _ = next.(*ast.IfStmt)
 				}
 				if ifs != nil && (ifs.Init == nil || ifs == self) {
+					cond := hyNodeString(p, ifs.Cond)
+					plain := cond == id.Name+"!=nil" || cond == "nil!="+id.Name || cond == id.Name+".HasErrors()"
 					switch {
-					case hyMentions(p, ifs.Cond, o) && hyReturnsErr(p, ifs.Body, o):
+					case plain && hyReturnsErr(p, ifs.Body, o):
 						how = "returned"
+					case hyMentions(p, ifs.Cond, o) && hyReturnsErr(p, ifs.Body, o):
+						how = "returned-on-narrower-condition"
 					case hyMentions(p, ifs.Cond, o):
 						how = "checked-not-returned"
 					case hyReturnsErr(p, ifs.Body, o):
@@ -873,7 +877,7 @@ func hyErrFlow(g *hyGen, p *packages.Package) string {
 		walk(fd.Body.List)
 	}
 	loops := hyLoopFacts(g, p)
-	return loops + "/-- what becomes of the error / diagnostics value of every fallible call of the conversion functions:\n(function, callee, \"returned\" = tested by the next statement and returned | \"returned-on-other-condition\" | \"checked-not-returned\" |\n\"unchecked\" | \"discarded\" | \"stored-elsewhere\") -/\n" +
+	return loops + "/-- what becomes of the error / diagnostics value of every fallible call of the conversion functions:\n(function, callee, \"returned\" = tested (`e != nil` / `e.HasErrors()`) by the next statement and returned |\n\"returned-on-narrower-condition\" | \"returned-on-other-condition\" | \"checked-not-returned\" |\n\"unchecked\" | \"discarded\" | \"stored-elsewhere\") -/\n" +
 		"def errFlow : List (String × String × String) := [\n  " + strings.Join(rows, ",\n  ") + "]\n\n"
 }
 
@@ -1351,6 +1355,22 @@ func hyLocalsFacts(g *hyGen, p *packages.Package) string {
 		if nVal != 1 {
 			g.fail("decodeLocalBlock: expected one Expr.Value(ctx) call, found %d", nVal)
 		}
+		// the context parameter is never written: all attributes of a block are evaluated under the SAME context
+		ast.Inspect(fd.Body, func(n ast.Node) bool {
+			switch x := n.(type) {
+			case *ast.AssignStmt:
+				for _, l := range x.Lhs {
+					if ctxParam != nil && hyMentions(p, l, ctxParam) {
+						evalUnder = "param-reassigned"
+					}
+				}
+			case *ast.UnaryExpr:
+				if x.Op.String() == "&" && ctxParam != nil && hyMentions(p, x.X, ctxParam) {
+					evalUnder = "param-address-taken"
+				}
+			}
+			return true
+		})
 	}
 
 	// ---- ParseHCLFile: the body is decoded under the context decodeLocals returns
